@@ -15,7 +15,7 @@ run() { # patch id expect(detect|quiet)
   else [ "$rc" = 0 ] && { res=QUIET; pass=$((pass+1)); } || { res="ALARM(rc=$rc)"; fail=$((fail+1)); }; fi
   row "$1" "$2" "$res" "$what"
 }
-for d in seeded/*/; do id=$(basename "$d" | cut -d- -f1); run "${d}patch.diff" "$id" detect; done
+for d in seeded/C*/; do id=$(basename "$d" | cut -d- -f1); run "${d}patch.diff" "$id" detect; done
 run mutants/prefix-Queue-RemoveAll-drains-the-queue-instead.patch C04 detect
 run mutants/prefix-Queue-RemoveAll-drains-the-queue-instead.patch C05 detect
 run mutants/prefix-queues-built-from-initial-values-get-a-c.patch C05 detect
@@ -38,5 +38,6 @@ run mutants/eq-queue-lock-discipline.patch C05 quiet
 run mutants/eq-queue-lock-discipline.patch C06 quiet
 run mutants/eq-parser-bigger-buffers.patch C11 quiet
 run mutants/eq-parser-bigger-buffers.patch C12 quiet
+for i in 1 2 3; do run mutants/eq-w4R2-$i.patch C06 quiet; done
 echo "seeds: pass=$pass fail=$fail"
 [ $fail = 0 ]
